@@ -70,7 +70,8 @@ def cases(tier: str, seed: int) -> List[Dict[str, Any]]:
     for kind in ("Linear", "LinearReadout", "Conv1d"):
         for fi, fo in itertools.product([1, 2, 3, 5, 16, 31], [1, 3, 8]):
             for d in [x for x in depths if x is not None]:
-                for form in ("DepthSequential_block", "DepthModuleList_block", "clones", "clones_copy", "copy_of_copy"):
+                for form in ("DepthSequential_block", "DepthModuleList_block", "clones", "clones_copy", "copy_of_copy",
+                             "repeated_seq", "repeated_list", "DepthSequential|frozen_at_build", "DepthModuleList|frozen_at_build"):
                     for opt in ("Adam", "AdamW"):
                         out.append({"kind": kind, "fin": fi, "fout": fo, "k": 3 if kind == "Conv1d" else None, "depth": d, "form": form,
                                     "eta": 0.3, "opt": opt, "constraint": "default", "seed": seed})
@@ -120,6 +121,8 @@ def run_case(case: Dict[str, Any]) -> Dict[str, Any]:
             else:
                 layer = uu.Conv1d(fi, fo, k, dtype=torch.float64, **kw)
             holder: Any = layer
+            frozen_at_build = form.endswith("|frozen_at_build")
+            form = form.split("|")[0]
             if d is not None:
                 fillers = [uu.GELU() for _ in range(d - 1)]
                 if form == "DepthSequential":
@@ -129,6 +132,9 @@ def run_case(case: Dict[str, Any]) -> Dict[str, Any]:
                     holder = uu.DepthSequential(od)
                 elif form == "DepthModuleList":
                     holder = uu.DepthModuleList([layer] + fillers)
+                elif form in ("repeated_seq", "repeated_list"):
+                    # the same layer object fills every position (weight sharing across depth): depth = len(container)
+                    holder = uu.DepthSequential(*[layer] * d) if form == "repeated_seq" else uu.DepthModuleList([layer] * d)
                 elif form in ("DepthSequential_block", "DepthModuleList_block"):
                     class Block(torch.nn.Module):
                         def __init__(self, inner: Any) -> None:
@@ -155,7 +161,14 @@ def run_case(case: Dict[str, Any]) -> Dict[str, Any]:
             if case.get("two_layers"):
                 # a second, unrelated tagged parameter in the same optimizer (shared lr tensor)
                 plist = plist + [uu.Parameter(torch.randn(7, 3, dtype=torch.float64), "weight")]
+            if frozen_at_build:
+                # staged fine-tuning: frozen when the optimizer is built, unfrozen before training
+                for p_ in plist:
+                    p_.requires_grad_(False)
             opt = Opt(plist, lr=lr_arg, eps=0.0, weight_decay=0.0)
+            if frozen_at_build:
+                for p_ in plist:
+                    p_.requires_grad_(True)
             if kind == "Conv1d":
                 x = torch.tensor(xp, dtype=torch.float64).reshape(1, fi, k)
             else:
